@@ -252,11 +252,12 @@ def run_scenario(spec: dict) -> dict:
         if ("save", k) in faults:
             S.mark("save_raise")
             raise Injected(f"save#{k}")
-        ctl_at["save"] = True
+        ctl_at["save"] = True          # until the end mark has been written (marks are scheduling points too)
         try:
             p = orig_save(self)
-        finally:
+        except BaseException:
             ctl_at["save"] = False
+            raise
         info = {}
         try:  # read the written state back (no yield points here): what is in the buffer, the agent's counter, the clock
             import pickle
@@ -273,7 +274,10 @@ def run_scenario(spec: dict) -> dict:
         timeline.append(["save_e", sched.now, len(sched.trace), tc.time()])
         if result.get("keeper_log") is not None:
             result["keeper_log"].append(["saved", Path(p).name, sorted(q.name for q in state["keeper_dir"].iterdir())])
-        S.mark("save_e", Path(p).name, tc.is_paused(), info)
+        try:
+            S.mark("save_e", Path(p).name, tc.is_paused(), info)
+        finally:
+            ctl_at["save"] = False
         return p
 
     StateStore.save_state = logged_save
